@@ -620,6 +620,7 @@ pub fn t_try_lock<C: Kind<L>, L: Uni<N>, const N: usize>(c: &C, budget: u8) {
 	let vals = l.peek_vals();
 	let pre = snaps(&st);
 	let all_free = all_other_free(&st);
+	let failed = Cell::new(false);
 	let key = ThreadKey::get().unwrap();
 	match c.k_try_lock(key) {
 		Ok(g) => {
@@ -639,13 +640,14 @@ pub fn t_try_lock<C: Kind<L>, L: Uni<N>, const N: usize>(c: &C, budget: u8) {
 			}
 			assert!(w().held == 0 && none_mine(&st), "C04_failed_try_holds_none_of_the_leaves");
 			assert!(key_flag(), "C04_failed_try_hands_the_key_back");
-			kani::cover!(N > 0, "try_failed");
+			failed.set(true);
 			drop(key);
 		}
 	}
 	assert!(all_balanced(&st), "C05_every_hold_released_once_in_its_mode");
 	assert!(!w().blocking_issued, "C04_try_never_waits");
 	assert!(ThreadKey::get().is_some(), "C03_key_obtainable_after");
+	kani::cover!(N == 0 || failed.get(), "try_failed");
 	kani::cover!(true, "end");
 }
 
@@ -729,7 +731,7 @@ pub fn t_scoped_try_lock<C: Kind<L>, L: Uni<N>, const N: usize>(c: &C, lend: boo
 	assert!(all_balanced(&st), "C05_every_hold_released_once_in_its_mode");
 	assert!(!w().blocking_issued, "C04_try_never_waits");
 	kani::cover!(ok, "acquired");
-	kani::cover!(!ok && N > 0, "not_acquired");
+	kani::cover!(N == 0 || !ok, "not_acquired");
 	kani::cover!(true, "end");
 }
 
@@ -771,6 +773,7 @@ pub fn t_try_read<C: KindS<L>, L: UniS<N>, const N: usize>(c: &C, budget: u8) {
 	let vals = l.peek_vals();
 	let pre = snaps(&st);
 	let grantable = no_other_excl(&st);
+	let failed = Cell::new(false);
 	let key = ThreadKey::get().unwrap();
 	match c.k_try_read(key) {
 		Ok(g) => {
@@ -789,13 +792,14 @@ pub fn t_try_read<C: KindS<L>, L: UniS<N>, const N: usize>(c: &C, budget: u8) {
 			}
 			assert!(w().held == 0 && none_mine(&st), "C04_failed_try_holds_none_of_the_leaves");
 			assert!(key_flag(), "C04_failed_try_hands_the_key_back");
-			kani::cover!(N > 0, "try_failed");
+			failed.set(true);
 			drop(key);
 		}
 	}
 	assert!(all_balanced(&st), "C05_every_hold_released_once_in_its_mode");
 	assert!(!w().blocking_issued, "C04_try_never_waits");
 	assert!(ThreadKey::get().is_some(), "C03_key_obtainable_after");
+	kani::cover!(N == 0 || failed.get(), "try_failed");
 	kani::cover!(true, "end");
 }
 
@@ -869,6 +873,6 @@ pub fn t_scoped_try_read<C: KindS<L>, L: UniS<N>, const N: usize>(c: &C, lend: b
 	assert!(all_balanced(&st), "C05_every_hold_released_once_in_its_mode");
 	assert!(!w().blocking_issued, "C04_try_never_waits");
 	kani::cover!(ok, "acquired");
-	kani::cover!(!ok && N > 0, "not_acquired");
+	kani::cover!(N == 0 || !ok, "not_acquired");
 	kani::cover!(true, "end");
 }
